@@ -513,6 +513,25 @@ fn evaluate(sc: &Scenario, report: Report, race_phase_events: usize, h3: Vec<Vec
             ),
         });
     }
+    // ---- H4: a slot must not be written again once its content has been handed out: every
+    // read that saw `Some` returned a `&'static` into the slot, and the holder uses it without
+    // passing through any seam, so a later write conflicts with those uses whatever the schedule.
+    {
+        let mut published: [[bool; N_SLOTS]; 2] = [[false; N_SLOTS]; 2];
+        for e in report.events.iter() {
+            if (e.table as usize) < 2 && (e.slot as usize) < N_SLOTS {
+                let (tb, sl) = (e.table as usize, e.slot as usize);
+                match e.kind {
+                    Kind::Read if e.saw_some => published[tb][sl] = true,
+                    Kind::Write if published[tb][sl] => {
+                        v.push(Violation { class: "rewrite-after-publication", detail: format!("{}[{}] written by task {} after a reference to its content had been handed out", table_name(e.table), e.slot, e.task) });
+                        published[tb][sl] = false;
+                    }
+                    _ => {}
+                }
+            }
+        }
+    }
     // ---- statistics / probes from the event log (race phase only)
     let mut sig = Digest::new();
     let ev = &report.events[..race_phase_events.min(report.events.len())];
